@@ -26,6 +26,10 @@ type c38Case struct {
 	Conflicts []int       `json:"conflicts"` // indexes into Pool of which a second, conflicting version is submitted too
 	Rounds    int         `json:"rounds"`    // how many blocks the node proposes in a row
 	Multi     int         `json:"multi"`     // how many further versions of each conflicting transaction are submitted (1..3)
+	// Odd: forms of the pool transactions that consensus refuses in the next block are submitted as
+	// well (a peer may send anything): bit 0 a copy with transaction version 2, bit 1 a copy whose
+	// time range ends at the current height, bit 2 a copy with version 0
+	Odd int `json:"odd,omitempty"`
 }
 
 var c38Kinds = []string{"spend", "spend", "spend", "vote", "veto", "issue", "xfer", "retire"}
@@ -66,6 +70,9 @@ func c38Gen(t *rapid.T) c38Case {
 	}
 	c.Rounds = rapid.IntRange(1, 3).Draw(t, "rounds")
 	c.Multi = rapid.IntRange(1, 3).Draw(t, "multi")
+	if rapid.IntRange(0, 2).Draw(t, "oddq") == 0 {
+		c.Odd = rapid.IntRange(1, 7).Draw(t, "odd")
+	}
 	return c
 }
 
@@ -148,6 +155,38 @@ func c38Exec(c c38Case, x *pbt.Ctx) error {
 				}
 			}
 		}
+		oddIDs := map[bc.Hash]bool{}
+		if c.Odd > 0 && c.Odd <= 7 {
+			var odd []*types.Tx
+			for i, tx := range submitted {
+				if i >= 4 {
+					break
+				}
+				if c.Odd&1 != 0 {
+					d := tx.TxData
+					d.Version = 2
+					odd = append(odd, types.NewTx(d))
+				}
+				if c.Odd&2 != 0 {
+					d := tx.TxData
+					d.TimeRange = n.Chain.BestBlockHeight()
+					odd = append(odd, types.NewTx(d))
+				}
+				if c.Odd&4 != 0 {
+					d := tx.TxData
+					d.Version = 0
+					odd = append(odd, types.NewTx(d))
+				}
+			}
+			// the odd forms first: whatever the pool makes of them, the proper forms follow
+			for _, o := range odd {
+				oddIDs[o.ID] = true
+			}
+			submitted = append(odd, submitted...)
+			if len(odd) > 0 {
+				x.Class("odd-forms-submitted")
+			}
+		}
 		pooled := map[bc.Hash]*types.Tx{}
 		for _, tx := range submitted {
 			raw, _ := tx.MarshalText()
@@ -155,8 +194,8 @@ func c38Exec(c c38Case, x *pbt.Ctx) error {
 			if err := cp.UnmarshalText(raw); err != nil {
 				return fmt.Errorf("HARNESS: %v", err)
 			}
-			if _, err := n.Chain.ValidateTx(cp); err == nil {
-				pooled[tx.ID] = tx
+			if _, err := n.Chain.ValidateTx(cp); err == nil && !oddIDs[tx.ID] {
+				pooled[tx.ID] = tx // (an odd form the pool takes is not expected in the block: the block is judged by the chain)
 			}
 		}
 		// the node's slot: first slot at or after parent+interval that the schedule gives to the node's key
